@@ -791,10 +791,28 @@ func TestEngine(t *testing.T) {
 	} else {
 		close(rdone)
 	}
-	parts := core.SpawnWorkers(c, c.Workers-nrace, nil, func(i int) int { return gmp[i%len(gmp)] })
+	// driver "cli" (C05): the closure through the whole command line, where --max-import-depth
+	// and --no-different-version-check have to reach the parser of the run
+	ncli := 0
+	var cparts []*core.Partial
+	cdone := make(chan struct{})
+	if ob := os.Getenv("VERIF_BIN_ORDER"); ob != "" && c.Property == "C05" && os.Getenv("VERIF_DIGESTS") == "" {
+		ncli = 2
+		cc := c
+		cc.Mode, cc.Bin = "cli", ob
+		go func() {
+			cparts = core.SpawnWorkers(cc, ncli, nil, func(i int) int { return []int{1, 4}[i%2] })
+			close(cdone)
+		}()
+	} else {
+		close(cdone)
+	}
+	parts := core.SpawnWorkers(c, c.Workers-nrace-ncli, nil, func(i int) int { return gmp[i%len(gmp)] })
 	<-rdone
+	<-cdone
 	core.DumpDigests(parts)
 	parts = append(parts, rparts...)
+	parts = append(parts, cparts...)
 	m := core.Merge(parts)
 	races := 0
 	if logs, _ := filepath.Glob(filepath.Join(c.OutDir, "race-*")); len(logs) > 0 {
